@@ -55,6 +55,12 @@ pub(crate) fn c08_case(rep: &mut Report, seed: u64, idx: u64, tier: &str) {
     let mut rng = Rng::fork(seed ^ 0xC08, idx);
     let cfg = if tier == "lean" { G1Cfg { big: false, max_depth: 2, oob_nonempty: true, max_groups: 2, max_attrs: 3 } } else { G1Cfg { big: idx % 101 == 0, ..G1Cfg::default() } };
     let mut m = gen::gen_model(&mut rng, &cfg);
+    // every 7th message has no operation-attributes group at all (a parsed response of that kind streamed again, or a message
+    // edited through groups_mut()), as long as another group remains
+    if idx % 7 == 3 && m.groups.iter().any(|g| g.tag != 1) {
+        m.groups.retain(|g| g.tag != 1);
+        rep.count("messages_without_an_operation_group", 1);
+    }
     // payload content and source kind
     let kind = idx % 3; // 0 none, 1 blocking source, 2 async source
     let plen = if tier == "lean" {
@@ -116,6 +122,30 @@ pub(crate) fn c08_case(rep: &mut Report, seed: u64, idx: u64, tier: &str) {
         if head.len() < 8 || head[..8] != hdr_of(m.version, m.code, m.id)[..] {
             rep.violation("C08:encoded-header", format!("{label}: to_bytes() starts with {} but the header is version {:#06x} code {:#06x} request-id {}", hex_short(&head[..head.len().min(8)], 16), m.version, m.code, m.id), replay.clone());
             return;
+        }
+        // ... and the attribute section must MEAN the message (independent reading of the octets; an operation group the encoder
+        // puts in front of a message that has none is empty and not counted)
+        if !consume_async && head.len() <= 1 << 16 {
+            // (body widths are not judged here: this generator also makes out-of-band values that carry octets)
+            match ippref::decode_strict(&head, &ippref::Strictness { bodies: false, unique_names: true }) {
+                Ok(w) => {
+                    let mut got = ippref::interp(&w).normalize();
+                    if m.groups.iter().all(|g| g.tag != 1) && got.groups.first().map(|g| g.tag == 1 && g.attrs.is_empty()).unwrap_or(false) {
+                        got.groups.remove(0);
+                    }
+                    let mut exp = m.clone().normalize();
+                    exp.data.clear();
+                    rep.count("encoded_heads_read_independently", 1);
+                    if let Some(d) = mirror::diff(&exp, &got) {
+                        rep.violation("C08:encoded-attributes", format!("{label}: the encoded header and attributes do not mean the message: {d}; head={}", hex_short(&head, 300)), replay.clone());
+                        return;
+                    }
+                }
+                Err(e) => {
+                    rep.violation("C08:encoded-attributes", format!("{label}: the reference decoder rejects the encoded header and attributes: {e:?}; head={}", hex_short(&head, 300)), replay.clone());
+                    return;
+                }
+            }
         }
         let mut expected = head.clone();
         // every 4th case: the header is changed through header_mut() AFTER the message has been encoded once; the stream
@@ -350,7 +380,7 @@ pub fn run_c08(args: &Args, tier: &str, seed: u64) -> Report {
         rep
     });
     let mut rep = merged("C08", tier, seed, parts);
-    rep.rule = "G1 messages x payload source {none, IppPayload::new(scripted Read), IppPayload::new_async(scripted AsyncRead)} x payload 0 B .. MiBs delivered with random chunking / Interrupted / Pending (immediate and deferred wake; helper-thread wakes under the blocking bridge) x consumer buffer-size sequences (1 B .. 64 KiB, varying per call) x {into_read, into_async_read}. Oracle: collected bytes == to_bytes() of the same instance ++ payload bytes, three consecutive 0-length reads at the end, payload source fully drained; first differing offset reported. evaluations = stream consumptions; distinct_nontrivial = distinct (message, payload length, path) combinations with a non-empty payload that matched.".into();
+    rep.rule = "G1 messages x payload source {none, IppPayload::new(scripted Read), IppPayload::new_async(scripted AsyncRead)} x payload 0 B .. MiBs delivered with random chunking / Interrupted / Pending (immediate and deferred wake; helper-thread wakes under the blocking bridge) x consumer buffer-size sequences (1 B .. 64 KiB, varying per call) x {into_read, into_async_read}. Every 7th message has no operation-attributes group. Oracle: to_bytes() of the instance starts with the message's own 8 header octets and, read by the reference decoder, means the message; collected bytes == to_bytes() of the same instance ++ payload bytes, three consecutive 0-length reads at the end, payload source fully drained; first differing offset reported. evaluations = stream consumptions; distinct_nontrivial = distinct (message, payload length, path) combinations with a non-empty payload that matched.".into();
     if only.is_none() {
         rep.require(rep.sets.get("payload_sources").map(|s| s.len()).unwrap_or(0) == 3, "all three payload sources exercised");
         rep.require(rep.counters.get("bridged_runs").copied().unwrap_or(0) > 100, "sync<->async bridge exercised");
@@ -556,7 +586,10 @@ pub fn run_c15(args: &Args, tier: &str, seed: u64) -> Report {
             let mut series: Vec<(usize, u64, u64)> = vec![];
             let mut size = 2048usize;
             let mut stopped = false;
-            while size <= max && !stopped {
+            // a doubling above the limit is only a suspicion (a one-off step up in marginal cost - another buffering regime for larger
+            // elements - is still linear); the next doubling, taken even beyond --max, confirms or clears it
+            let mut suspect = [false; 2];
+            while (size <= max || (suspect.iter().any(|s| *s) && size <= 2 * max)) && !stopped {
                 rep.eval();
                 let (bytes, calls, n, out) = cost_parse(fam, size, use_async, chunk);
                 rep.seen("outcomes", format!("{key}: {out}"));
@@ -571,6 +604,7 @@ pub fn run_c15(args: &Args, tier: &str, seed: u64) -> Report {
                 let k = series.len();
                 if k >= 3 {
                     for (what, sel) in [("alloc-bytes", 1usize), ("alloc-calls", 2)] {
+                        let was_suspect = std::mem::replace(&mut suspect[sel - 1], false);
                         let c = |i: usize| -> f64 {
                             if sel == 1 {
                                 series[i].1 as f64
@@ -581,13 +615,18 @@ pub fn run_c15(args: &Args, tier: &str, seed: u64) -> Report {
                         let pts: Vec<(f64, f64)> = (0..k).map(|i| (series[i].0 as f64, c(i))).collect();
                         if let Some(ratio) = growth(&pts, 1024.0) {
                             rep.max("max_ratio_x1000", (ratio * 1000.0) as i64);
-                            if ratio > RATIO_LIMIT {
+                            if ratio > RATIO_LIMIT && !was_suspect {
+                                suspect[sel - 1] = true;
+                                rep.count("doublings_above_the_limit_awaiting_confirmation", 1);
+                            } else if ratio > RATIO_LIMIT {
                                 rep.violation(
                                     format!("C15:superlinear-{what}:{fam}"),
-                                    format!("{key}: {what} grows by x{ratio:.2} per doubling (against the steepest earlier doubling) at {n} input bytes (series (input, bytes, calls): {series:?}); linear is 2, quadratic 4, limit {RATIO_LIMIT}"),
+                                    format!("{key}: {what} grows by x{ratio:.2} per doubling (against the steepest earlier doubling, second doubling in a row above the limit) at {n} input bytes (series (input, bytes, calls): {series:?}); linear is 2, quadratic 4, limit {RATIO_LIMIT}"),
                                     replay.clone(),
                                 );
                                 stopped = true;
+                            } else if was_suspect {
+                                rep.count("one_off_steps_in_marginal_cost_cleared", 1);
                             }
                         }
                     }
@@ -682,6 +721,25 @@ pub fn run_c16(_args: &Args, tier: &str, seed: u64) -> Report {
         let cloned = reused.clone();
         if again != via_header || cloned.status_code() != via_header || again.is_success() != via_header.is_success() {
             rep.violation(format!("C16:status:depends-on-history:{code:#06x}"), format!("a header object decoded with other codes before, then set to {code:#06x}, decodes to {again:?} (clone: {:?}); a fresh header gives {via_header:?}", cloned.status_code()), none());
+        }
+        // ... nor on the way the header came off the wire: both parsers, two protocol versions, must hand back exactly this code
+        for ver in [0x0101u16, 0x0200] {
+            let mut wire = ver.to_be_bytes().to_vec();
+            wire.extend_from_slice(&c.to_be_bytes());
+            wire.extend_from_slice(&[0x12, 0x34, 0x56, 0x78, 0x03]);
+            let data = Arc::new(wire);
+            for (how, o) in [("blocking", sync_parse(&data, Plan::full()).0), ("async", async_parse(&data, Plan::full()).0)] {
+                rep.count("status_codes_decoded_from_the_wire", 1);
+                match o {
+                    Outcome::Ok(m) if m.code == c && m.version == ver && m.id == 0x12345678 => {}
+                    Outcome::Ok(m) => rep.violation(
+                        format!("C16:status:from-the-wire:{how}"),
+                        format!("header {ver:#06x} {code:#06x} 0x12345678 read by the {how} parser gives version {:#06x}, status {:#06x}, request-id {:#x}", m.version, m.code, m.id),
+                        none(),
+                    ),
+                    other => rep.violation(format!("C16:status:from-the-wire:{how}"), format!("header {ver:#06x} {code:#06x} read by the {how} parser: {}", other.short()), none()),
+                }
+            }
         }
         let direct = StatusCode::from_u16(c);
         let sym = format!("{via_header:?}");
@@ -1063,6 +1121,13 @@ fn c17_build(code: u16, state: &StateIn, reasons: &Option<Vec<String>>, noise: u
     if noise & 16 != 0 {
         let mut p2 = BTreeMap::new();
         p2.insert("printer-location".to_string(), MVal::Text { tag: 0x41, s: "shutdown".into() });
+        if noise & 0x100 != 0 {
+            // a later printer group that is idle and reports nothing: the answer is about the first one (a helper that looked at
+            // every printer group would answer the same whenever the first one is blocked; when the first one is ready the later
+            // one is harmless too)
+            p2.insert("printer-state".to_string(), MVal::Enum(3));
+            p2.insert("printer-state-reasons".to_string(), MVal::Text { tag: 0x44, s: "none".into() });
+        }
         groups.push(ippref::MGroup { tag: 4, attrs: p2 });
     }
     Model { version: 0x0200, code, id: 5, groups, data: vec![] }
@@ -1228,7 +1293,7 @@ pub fn run_c17(args: &Args, tier: &str, seed: u64) -> Report {
     });
     let mut rep = merged("C17", tier, seed, parts);
     rep.extra.insert("grid_size".into(), J::Int(grid_total as i64));
-    rep.rule = "Responses from the grid {registered + boundary status codes (thorough: all 65536)} x printer-state {absent, idle, processing, stopped, other values, wrong syntax} x printer-state-reasons {absent, each single keyword of the blocking and informational vocabularies, sets of 2..6, 17 and 33 keywords with a blocking word at every position, informational-only sets, random sets of up to 64} x unrelated attributes/groups (look-alike attributes in other groups, second printer group, further printer attributes such as printer-is-accepting-jobs in varying combinations), plus seeded random combinations; every response judged twice: built in memory and after reference-encode -> library parse (the parser decides set vs single value). Oracle: three-valued reference decision MUST_ERR(status) / MUST_FALSE / MUST_TRUE / UNSPECIFIED (state absent/other/wrong syntax without blocking reason). distinct = by response description.".into();
+    rep.rule = "Responses from the grid {registered + boundary status codes (thorough: all 65536)} x printer-state {absent, idle, processing, stopped, other values, wrong syntax} x printer-state-reasons {absent, each single keyword of the blocking and informational vocabularies, sets of 2..6, 17 and 33 keywords with a blocking word at every position, informational-only sets, random sets of up to 64} x unrelated attributes/groups (look-alike attributes in other groups, second printer group - also an idle one reporting 'none' behind a blocked first one -, further printer attributes such as printer-is-accepting-jobs in varying combinations), plus seeded random combinations; every response judged twice: built in memory and after reference-encode -> library parse (the parser decides set vs single value). Oracle: three-valued reference decision MUST_ERR(status) / MUST_FALSE / MUST_TRUE / UNSPECIFIED (state absent/other/wrong syntax without blocking reason). distinct = by response description.".into();
     rep.require(rep.sets.get("decisions").map(|s| s.len()).unwrap_or(0) == 4, "all four reference decisions exercised");
     rep
 }
